@@ -3,7 +3,7 @@
 // independent oracle), runs the real scanner and parser of go.starlark.net/syntax
 // on the text and prints what was observed, one JSON object per line.
 //
-//	c14 -seed S -n N -mode expr|file|lit|layout|near|unparen|all
+//	c14 -seed S -n N -mode expr|file|lit|layout|near|unparen|ungram|all
 package main
 
 import (
@@ -264,7 +264,7 @@ func modeTie(kind string, n int, fam *hx.Rand) {
 func main() {
 	seed := flag.Uint64("seed", 1, "seed")
 	n := flag.Int("n", 200, "cases per family")
-	mode := flag.String("mode", "all", "expr file lit layout near unparen all")
+	mode := flag.String("mode", "all", "expr file lit layout near unparen ungram all")
 	flag.Parse()
 	defer hx.Flush()
 
@@ -272,6 +272,7 @@ func main() {
 	// one independent generator per family, drawn in a fixed order
 	rExpr, rFile, rLit, rLayout, rNear := root.Split(), root.Split(), root.Split(), root.Split(), root.Split()
 	rUnparen := root.Split()
+	rUngram := root.Split()
 	switch *mode {
 	case "expr":
 		modeTie("expr", *n, rExpr)
@@ -285,6 +286,8 @@ func main() {
 		modeNear(*n, rNear)
 	case "unparen":
 		modeUnparen(*n, rUnparen)
+	case "ungram":
+		modeUngram(*n, rUngram)
 	case "all":
 		modeTie("expr", *n, rExpr)
 		modeTie("file", *n, rFile)
@@ -300,6 +303,7 @@ func main() {
 			nu = 1
 		}
 		modeUnparen(nu, rUnparen)
+		modeUngram(len(ugTemplates), rUngram)
 	default:
 		fmt.Fprintln(os.Stderr, "unknown mode", *mode)
 		os.Exit(2)
